@@ -103,11 +103,19 @@ def src_content(game, n, keys=4):
     return c
 
 
-def build_source(game, n, nmaps=2):
+def build_source(game, n, nmaps=2, variant=0):
     if game == "o2j":
         nmaps = 3
+
     def one(k):
-        m = new_map(game, src_content(game, n))
+        c = src_content(game, n)
+        # every chart of a set (and every variant) has its own content
+        for rows in c.values():
+            for row in rows:
+                row["offset"] += 10.0 * k + 3.0 * variant
+                if "bpm" in row:
+                    row["bpm"] += 5.0 * k + variant
+        m = new_map(game, c)
         if game == "osu":
             m.title, m.artist, m.creator, m.version = "Tit:le あ", "Art", "Cre", f"Diff{k}"
             m.circle_size = 4
@@ -194,7 +202,7 @@ def exec_conv(scn):
     shift = scn.get("shift", 0) if has_shift else 0
     rec = {"id": f"{scn['id']}/{name}", "op": "convert", "conv": name, "cls": f"{name}:{'+'.join(scn['hist'][:-1]) or 'fresh'}",
            "shift": shift * 1000, "carry_sv": sg in ("osu", "qua") and tg in ("osu", "qua"), "exc": "",
-           "src": [], "src_after": [], "outs": [], "names_src": [], "names_out": [], "src_game": sg, "tgt_game": tg,
+           "src": [], "src_after": [], "outs": [], "outs_after": [], "names_src": [], "names_out": [], "src_game": sg, "tgt_game": tg,
            "merge": name.endswith(".merge")}
     try:
         obj = build_source(sg, scn["n"])
@@ -213,6 +221,10 @@ def exec_conv(scn):
         rec["outs"] = [proj_chart(m) for m, _ in outs]
         rec["names_out"] = [names_of(tg, m, o) for m, o in outs]
         rec["src_after"] = [proj_chart(m) for m in charts_of(obj)]
+        # history after the call: a second, different conversion must not reach into the first result
+        other = apply_history(build_source(sg, scn["n"], variant=1), scn["hist"], sg)
+        call_converter(name, other, shift)
+        rec["outs_after"] = [proj_chart(m) for m, _ in outs]
     except Exception as e:
         rec["exc"] = exc_name(e)
     return [rec]
